@@ -7,7 +7,15 @@ import rxsci as rs
 from rxsim.runner import Check, Outcome
 from rxsim.bytesim import gen_cuts, cut, drive, collect, drive_concurrent, merge_order
 
-ENCODINGS = ['utf-8', 'utf-16', 'utf-32', 'latin-1', 'utf-8-sig', 'utf-16-le', 'utf-16-be', 'utf8']
+ENCODINGS = ['utf-8', 'utf-16', 'utf-32', 'latin-1', 'utf-8-sig', 'utf-16-le', 'utf-16-be', 'utf8',
+             # other spellings Python accepts for the same codecs
+             'utf16', 'u16', 'utf32', 'u32', 'utf_16', 'UTF-16', 'UTF-8', 'utf_8', 'latin1', 'iso-8859-1', 'L1', 'utf_32', 'UTF-32', 'U8']
+LATIN = ('latin-1', 'latin1', 'iso-8859-1', 'L1')
+
+
+def family(enc):
+    import codecs
+    return codecs.lookup(enc).name          # 'utf-16', 'utf-8', 'iso8859-1', ...
 POOL = ['a', 'Z', ' ', '\n', '\x00', 'é', 'ÿ', '\x80']
 WIDE = ['\u20ac', '\u0436', '\u6f22', '\u0301', '\u200d', '\U0001F600', '\U00010348', '\U0010FFFF', '\ud7ff', '\ue000', '\ufffd', '\uffff', '\ufeff', '\ufeff']
 
@@ -24,7 +32,7 @@ class C17(Check):
     real = ['rxsci.data.encode / decode (current working tree)', 'codecs incremental encoders/decoders (CPython)', 'RxPY Subject/pipe']
     stubs = ['producer of the strings', 'transport re-cutting the bytes', 'final subscriber']
     assumptions = ['inputs contain no lone surrogates (not encodable)', 'latin-1 inputs are restricted to U+0000..U+00FF']
-    probe_names = ('concurrent_streams', 'signature_lookalike_prefix', 'zwnbsp_in_text', 'cut_inside_multibyte', 'astral', 'combining', 'empty_string', 'bom_encoding', 'swept_all_single_cuts',
+    probe_names = ('encoding_alias', 'concurrent_streams', 'signature_lookalike_prefix', 'zwnbsp_in_text', 'cut_inside_multibyte', 'astral', 'combining', 'empty_string', 'bom_encoding', 'swept_all_single_cuts',
                    'enc:utf-8', 'enc:utf-16', 'enc:utf-32', 'enc:latin-1')
     quick_cap = 200000
 
@@ -32,12 +40,12 @@ class C17(Check):
         enc = rng.choice(ENCODINGS)
         n = rng.choice([0, 1, 2, 3, 5]) if tier == 'quick' else rng.choice([0, 1, 3, 8, 30])
         strings = []
-        pool = POOL if enc == 'latin-1' else POOL + WIDE + WIDE
+        pool = POOL if enc in LATIN else POOL + WIDE + WIDE
         for _ in range(n):
             strings.append(''.join(rng.choice(pool) for _ in range(rng.choice([0, 0, 1, 2, 4, 9, 30 if tier != 'quick' else 3]))))
         if strings and rng.random() < 0.12:
             # text whose first bytes look like the signature of *another* encoding
-            look = ['\u00ef\u00bb\u00bf', '\u00ff\u00fe', '\u00fe\u00ff', '\u00ff\u00fe\x00\x00'] if enc == 'latin-1' else \
+            look = ['\u00ef\u00bb\u00bf', '\u00ff\u00fe', '\u00fe\u00ff', '\u00ff\u00fe\x00\x00'] if enc in LATIN else \
                 ['\ufeff', '\ufffe', '\u00ef\u00bb\u00bf', '\ufeff\ufeff']
             strings[0] = rng.choice(look) + strings[0]
         case = {'encoding': enc, 'strings': strings, 'cutseed': rng.randrange(1 << 30), 'sweep': rng.random() < 0.6}
@@ -53,11 +61,11 @@ class C17(Check):
             for s in case['strings']:
                 if any(0xD800 <= ord(c) <= 0xDFFF for c in s):
                     return False
-                if case['encoding'] == 'latin-1' and any(ord(c) > 255 for c in s):
+                if case['encoding'] in LATIN and any(ord(c) > 255 for c in s):
                     return False
             for st in case.get('concurrent') or ():
                 for s2 in st:
-                    if any(0xD800 <= ord(c) <= 0xDFFF for c in s2) or (case['encoding'] == 'latin-1' and any(ord(c) > 255 for c in s2)):
+                    if any(0xD800 <= ord(c) <= 0xDFFF for c in s2) or (case['encoding'] in LATIN and any(ord(c) > 255 for c in s2)):
                         return False
             return case.get('cuts') is None or all(isinstance(c, int) and c >= 0 for c in case['cuts'])
         except (KeyError, TypeError):
@@ -91,9 +99,9 @@ class C17(Check):
         # offsets strictly inside multi-byte sequences
         inside = set()
         try:
-            off = len(blob) - len(text.encode(enc if enc not in ('utf-16', 'utf-32', 'utf-8-sig') else
-                                              {'utf-16': 'utf-16-le', 'utf-32': 'utf-32-le', 'utf-8-sig': 'utf-8'}[enc]))
-            base = {'utf-16': 'utf-16-le', 'utf-32': 'utf-32-le', 'utf-8-sig': 'utf-8'}.get(enc, enc)
+            fam = family(enc)
+            base = {'utf-16': 'utf-16-le', 'utf-32': 'utf-32-le', 'utf-8-sig': 'utf-8'}.get(fam, fam)
+            off = len(blob) - len(text.encode(base))
             for ch in text:
                 w = len(ch.encode(base))
                 inside.update(range(off + 1, off + w))
@@ -155,9 +163,11 @@ class C17(Check):
             p['combining'] += 1
         if any(s == '' for s in strings):
             p['empty_string'] += 1
-        if enc in ('utf-16', 'utf-32', 'utf-8-sig'):
+        if family(enc) in ('utf-16', 'utf-32', 'utf-8-sig'):
             p['bom_encoding'] += 1
-        p['enc:' + {'utf8': 'utf-8'}.get(enc, enc).replace('-sig', '').replace('-le', '').replace('-be', '')] += 1
+        if enc not in ('utf-8', 'utf-16', 'utf-32', 'latin-1', 'utf-8-sig', 'utf-16-le', 'utf-16-be'):
+            p['encoding_alias'] += 1
+        p['enc:' + {'iso8859-1': 'latin-1'}.get(family(enc), family(enc)).replace('-sig', '').replace('-le', '').replace('-be', '')] += 1
         return out
 
     def extra_candidates(self, case):
